@@ -243,7 +243,7 @@ pub fn run(ctx: &Ctx) -> Report {
     let mut prof = PLAIN.clone();
     prof.allow_long = true;
     let max_ops = ctx.tier.pick(12, 40);
-    let v = search(ctx, "seq", ctx.tier.pick(24_000, 300_000), || seq::seq_case(W_PERSIST, max_ops), |c: &SeqCase, st| {
+    let v = search(ctx, "seq", ctx.tier.pick(60_000, 600_000), || seq::seq_case(W_PERSIST, max_ops), |c: &SeqCase, st| {
         st.eval();
         if st.wants_sample() && c.ops.len() > 4 && st.evaluations % 41 == 3 {
             st.sample(json!({"ops": c.ops.iter().map(|o| o.kind()).collect::<Vec<_>>(), "ptype": c.ptype % 3}));
@@ -252,7 +252,7 @@ pub fn run(ctx: &Ctx) -> Report {
     }, &mut st);
     rep.push(v);
 
-    let v = search(ctx, "sweep", ctx.tier.pick(600, 8_000), || seq::seq_case(W_MUTATE_ONLY, 9), |c: &SeqCase, st| {
+    let v = search(ctx, "sweep", ctx.tier.pick(1_500, 15_000), || seq::seq_case(W_MUTATE_ONLY, 9), |c: &SeqCase, st| {
         st.class("sweep");
         check_sweep(c, st)
     }, &mut st);
